@@ -685,7 +685,7 @@ impl Scenario for BuildScenario {
     fn describe(&self) -> ScenarioInfo {
         ScenarioInfo {
             level: "exploration",
-            rule: "one seeded run = a valid seeded world (matrix/raw/dual) with 0-3 storage faults applied to one or two of lex.csv, matrix.def, char.def, unk.def, bigram.right/left/cost (generic: emptied, truncated, bit flip, byte lost/inserted, line lost/duplicated/swapped, field lost/duplicated, number replaced by a boundary value, final newline; structured: the documented hazards of each format), built through readers with seeded short reads/EINTR/hard errors; then optionally a (possibly corrupted) user lexicon and a (possibly malformed) id mapping. Every call must return Ok or Err without panicking; an accepted dictionary must tokenize ~60 probe sentences (all alphabet characters, characters at and around every range end of the corrupted char.def) under every option set without panic and with ids inside the connector, must not swallow a fired I/O error, and, when char.def is still inside the strict reference grammar, must assign categories exactly like the reference interpreter. Added later: a field replaced by 60-180 multi-byte characters (with an ASCII prefix of 0-2 bytes), char.def worlds with a last line that hands a span back to DEFAULT alone. distinct_nontrivial = distinct plan hashes of runs with >= 1 storage or stream fault",
+            rule: "one seeded run = a valid seeded world (matrix/raw/dual) with 0-3 storage faults applied to one or two of lex.csv, matrix.def, char.def, unk.def, bigram.right/left/cost (generic: emptied, truncated, bit flip, byte lost/inserted, line lost/duplicated/swapped, field lost/duplicated, number replaced by a boundary value, final newline; structured: the documented hazards of each format), built through readers with seeded short reads/EINTR/hard errors; then optionally a (possibly corrupted) user lexicon and a (possibly malformed) id mapping. Every call must return Ok or Err without panicking; an accepted dictionary must tokenize ~60 probe sentences (all alphabet characters, characters at and around every range end of the corrupted char.def) under every option set without panic and with ids inside the connector, must not swallow a fired I/O error, and, when char.def is still inside the strict reference grammar, must assign categories exactly like the reference interpreter. Added later: a field replaced by 60-180 multi-byte characters (with an ASCII prefix of 0-2 bytes), char.def worlds with a last line that hands a span back to DEFAULT alone. Round 5: a category named like the concatenation of two others (KANJINUMERIC), commented-out category names after a free-standing '#'. distinct_nontrivial = distinct plan hashes of runs with >= 1 storage or stream fault",
             assumptions: vec![
                 "matrix.def headers implying more than 2^22 cells are not generated (accepted by design; would only exhaust the simulator's memory)",
                 "the category comparison runs only while the corrupted char.def stays inside the strict reference grammar; other accepted files are counted as unchecked",
